@@ -252,3 +252,449 @@ Proof.
   - unfold close_i in H. rewrite D in H. injection H as <- <-.
     split; [exact C | split; [exists []; rewrite app_nil_r; reflexivity | reflexivity]].
 Qed.
+
+(* ---- one call from inside the flush ---- *)
+Lemma LInv_closing_step s s' : LInv s -> s_down s <> DNone -> KInv s' -> same_conn s s' -> sub_flags (s_t s) (s_t s') -> LInv s'.
+Proof.
+  intros [T P C D] N K (E1 & E2 & E3) S. destruct D as [D|[D E]]; [contradiction|].
+  constructor; [apply K | congruence | congruence | right; split; [congruence | eapply sub_flags_nil; eauto]].
+Qed.
+
+Lemma LInv_with_t s t : LInv s -> TInv t -> s_down s = DNone -> LInv (with_t s t).
+Proof.
+  intros [T P C D] T' Dn. destruct s as [t0 p0 rx0 c0 d0 f0 a0]. constructor; cbn in *; auto.
+Qed.
+
+Lemma call0_L s c s' o : LInv s -> call0_step s c = (s', o) ->
+  LInv s' /\ ext_ok (s_t s) (s_t s') o /\ grow_flags (s_t s) (s_t s').
+Proof.
+  intros L H. destruct (s_down s) eqn:D.
+  2,3: (assert (N : s_down s <> DNone) by (rewrite D; discriminate);
+        destruct (call0_K _ _ _ _ (LInv_K s L N) H) as (K' & SC & X & S);
+        split; [eapply LInv_closing_step; eauto | split; [exact X | apply sub_grow; exact S]]).
+  pose proof L as [T P C _].
+  destruct c as [h|rid ex| |]; cbn [call0_step step] in H.
+  - (* cancel *)
+    unfold lift in H. injection H as <- <-.
+    pose proof (cancel_ok (s_t s) h _ _ T (surjective_pairing _)) as OK.
+    pose proof (cancel_sub (s_t s) h) as S.
+    rewrite with_t_t. split; [|split; [apply op_ext; exact OK | apply sub_grow; exact S]].
+    apply LInv_with_t; [exact L | apply OK | exact D].
+  - (* makeRequest on the live connection: written at once *)
+    unfold make_request in H. destruct (lookup rid (t_reqs (s_t s))) eqn:Lk.
+    + injection H as <- <-. split; [exact L | split; [|apply sub_grow; apply sub_flags_refl]].
+      apply ext_neutral; [exact T|]. intros x Hx. cbn in Hx. intuition (subst; auto 10).
+    + rewrite D, P in H.
+      set (hh := length (t_dlog (s_t s))) in *.
+      assert (Hh : ~ In hh (t_fired (s_t s))). { intro F. apply (ti_fired_lt _ T) in F. unfold hh in F. lia. }
+      set (r := mkReq rid hh ex false false) in *.
+      set (t1 := mkT (t_reqs (s_t s) ++ [r]) (t_dlog (s_t s) ++ [rid]) (t_fired (s_t s))) in *.
+      assert (T1 : TInv t1) by (apply TInv_add; auto).
+      pose proof (send_request_new t1 (t_reqs (s_t s)) r eq_refl (ti_ids _ T1) eq_refl Hh) as SR.
+      pose proof (send_request_ok t1 r _ _ T1 ltac:(cbn; apply in_app_iff; right; left; reflexivity) eq_refl SR) as (T2 & D2 & S2).
+      unfold lift in H. rewrite SR in H. cbn [fst snd] in H. injection H as <- <-. rewrite with_t_t.
+      split; [|split].
+      * apply LInv_with_t; [exact L | exact T2 | exact D].
+      * split; [exact T2 | split; [exists [rid]; reflexivity | exact S2]].
+      * intros x' Hx'. cbn [t_reqs] in Hx'. apply in_app_iff in Hx'. destruct Hx' as [Hx'|Hx'].
+        -- left. exists x'. auto.
+        -- right. unfold sq_reqs in Hx'. cbn [filter r_expect r] in Hx'. destruct ex; cbn in Hx'; [|contradiction].
+           destruct Hx' as [<-|[]]. cbn. auto.
+  - (* disconnect *)
+    rewrite P in H. injection H as <- <-. split; [exact L | split; [|apply sub_grow; apply sub_flags_refl]].
+    apply ext_neutral; [exact T|]. intros x Hx. cbn in Hx. intuition (subst; auto 10).
+  - (* close() with nothing happening in its loop *)
+    rewrite D in H. destruct s as [t p rx c d f a]. cbn [s_t s_proto s_rxbuf s_connector s_down s_failures s_addr] in *. subst p c d.
+    unfold with_down in H. cbn [s_t s_proto s_rxbuf s_connector s_down s_failures s_addr] in H.
+    destruct (close_table_ok t T) as (FA & (T' & D' & Sc) & _).
+    rewrite FA in H. unfold with_t in H. cbn [s_t s_proto s_rxbuf s_connector s_down s_failures s_addr] in H.
+    injection H as <- <-. cbn [s_t]. split; [|split].
+    + constructor; cbn [s_t s_proto s_connector s_down t_reqs]; auto.
+    + split; [exact T' | split; [exists []; rewrite app_nil_r; exact D' | rewrite D'; cbn [app scan]; exact Sc]].
+    + intros x Hx. cbn [t_reqs] in Hx. contradiction.
+Qed.
+
+Lemma call1_L s c s' o : LInv s -> call1_step s c = (s', o) ->
+  LInv s' /\ ext_ok (s_t s) (s_t s') o /\ grow_flags (s_t s) (s_t s').
+Proof.
+  intros L H. destruct c as [c0|i]; cbn [call1_step] in H; [eapply call0_L; eauto|].
+  pose proof L as [T P C Dn].
+  destruct (s_down s) eqn:D.
+  - destruct (close_i_ok i s s' o T D ltac:(intros _; exact C) ltac:(rewrite C; discriminate) H) as (K & X & E & F).
+    destruct (F P) as (F1 & F2 & F3).
+    split; [constructor; [apply K | exact F1 | exact F2 | right; split; assumption] | split; [exact X|]].
+    intros x Hx. rewrite E in Hx. contradiction.
+  - unfold close_i in H. rewrite D in H. injection H as <- <-.
+    split; [exact L | split; [|apply sub_grow; apply sub_flags_refl]].
+    apply ext_neutral; [exact T|]. intros x Hx. cbn in Hx. intuition (subst; auto 10).
+  - unfold close_i in H. rewrite D in H. injection H as <- <-.
+    split; [exact L | split; [|apply sub_grow; apply sub_flags_refl]].
+    apply ext_neutral; [exact T|]. intros x Hx. cbn in Hx. intuition (subst; auto 10).
+Qed.
+
+Lemma run_calls1_L : forall cs s s' o, LInv s -> run_calls1 s cs = (s', o) ->
+  LInv s' /\ ext_ok (s_t s) (s_t s') o /\ grow_flags (s_t s) (s_t s').
+Proof.
+  induction cs as [|c cs IH]; intros s s' o L H; cbn [run_calls1] in H.
+  - injection H as <- <-. split; [exact L | split; [apply ext_refl; apply L | apply sub_grow; apply sub_flags_refl]].
+  - destruct (call1_step s c) as [s1 o1] eqn:E1. destruct (run_calls1 s1 cs) as [s2 o2] eqn:E2. injection H as <- <-.
+    destruct (call1_L _ _ _ _ L E1) as (L1 & X1 & G1). destruct (IH _ _ _ L1 E2) as (L2 & X2 & G2).
+    split; [exact L2 | split; [eapply ext_trans; eauto | eapply grow_trans; eauto]].
+Qed.
+
+(* ------------------------------------------------------------------ (F) the loop of _sendQueued, as it is now *)
+(* every table entry has been written on this connection and awaits a reply, or is still to be visited *)
+Definition Q (s : state) (rest : list req) : Prop :=
+  forall x, In x (t_reqs (s_t s)) ->
+    (r_sent x = true /\ r_expect x = true) \/ (r_sent x = false /\ In (r_h x) (map r_h rest)).
+
+Lemma Q_grow s s' rest : grow_flags (s_t s) (s_t s') -> Q s rest -> Q s' rest.
+Proof.
+  intros G HQ x' Hx'. destruct (G x' Hx') as [(x & Hx & E1 & E2 & E3)|Y]; [|left; exact Y].
+  rewrite E1, E2, E3. exact (HQ x Hx).
+Qed.
+
+Lemma send_request_rel t r : TInv t -> In r (t_reqs t) ->
+  forall x', In x' (t_reqs (fst (send_request t r))) ->
+    (In x' (t_reqs t) /\ r_h x' <> r_h r) \/ (x' = set_sent true r /\ r_expect r = true).
+Proof.
+  intros T Hr x' Hx'. unfold send_request in Hx'.
+  assert (U : forall y, In y (upd (r_id r) (set_sent true) (t_reqs t)) ->
+              (In y (t_reqs t) /\ r_id y <> r_id r /\ r_h y <> r_h r) \/ y = set_sent true r).
+  { intros y Hy. apply in_upd in Hy. destruct Hy as (x & Hx & ->).
+    destruct (r_id x =? r_id r) eqn:E.
+    - apply Z.eqb_eq in E. right. f_equal. eapply TInv_id_inj; eauto.
+    - apply Z.eqb_neq in E. left. repeat split; auto. intro Eh. apply E. f_equal. eapply TInv_h_inj; eauto. }
+  destruct (r_expect r) eqn:Ex.
+  - cbn [fst t_with_reqs t_reqs] in Hx'. destruct (U x' Hx') as [(A & _ & B)|A]; [left; auto | right; auto].
+  - destruct (fire _ _ _) as [t2 o2] eqn:EF. cbn [fst] in Hx'.
+    assert (t_reqs t2 = del (r_id r) (upd (r_id r) (set_sent true) (t_reqs t))) as E2.
+    { pose proof (fire_reqs (t_with_reqs (t_with_reqs t (upd (r_id r) (set_sent true) (t_reqs t)))
+                   (del (r_id r) (t_reqs (t_with_reqs t (upd (r_id r) (set_sent true) (t_reqs t)))))) (r_h r) SuccNone) as X.
+      rewrite EF in X. cbn [fst t_with_reqs t_reqs] in X. exact X. }
+    rewrite E2 in Hx'. apply in_del in Hx'. destruct Hx' as [Hy Hne].
+    destruct (U x' Hy) as [(A & _ & B)|A]; [left; auto|]. subst x'. exfalso. apply Hne. reflexivity.
+Qed.
+
+Lemma send_one_ok inter s r rest s' o : LInv s -> In r (t_reqs (s_t s)) -> r_sent r = false ->
+  (forall x, In x (t_reqs (s_t s)) ->
+     (r_sent x = true /\ r_expect x = true) \/ (r_sent x = false /\ (r_h x = r_h r \/ In (r_h x) (map r_h rest)))) ->
+  send_one inter s r = (s', o) ->
+  LInv s' /\ ext_ok (s_t s) (s_t s') o /\ Q s' rest.
+Proof.
+  intros L Hr Hs HQ H. pose proof L as [T P K Dn].
+  assert (Hc : r_cancelled r = false).
+  { destruct (TInv_entry _ r T Hr) as (_ & E2 & _). destruct (r_cancelled r); auto. rewrite Hs in E2. symmetry. auto. }
+  assert (Dn0 : s_down s = DNone).
+  { destruct Dn as [Dn|[_ E]]; [exact Dn|]. rewrite E in Hr. contradiction. }
+  unfold send_one in H.
+  pose proof (send_request_ok (s_t s) r _ _ T Hr Hc (surjective_pairing _)) as OK.
+  pose proof (send_request_rel (s_t s) r T Hr) as R1.
+  destruct (send_request (s_t s) r) as [t1 o1]. cbn [fst snd] in *.
+  assert (L1 : LInv (with_t s t1)) by (apply LInv_with_t; [exact L | apply OK | exact Dn0]).
+  assert (X1 : ext_ok (s_t s) (s_t (with_t s t1)) o1) by (rewrite with_t_t; apply op_ext; exact OK).
+  assert (Q1 : Q (with_t s t1) rest).
+  { intros x' Hx'. rewrite with_t_t in Hx'.
+    destruct (R1 x' Hx') as [[A B]|[-> B]].
+    - destruct (HQ x' A) as [Y|[Y1 [Y2|Y2]]]; [left; exact Y | contradiction | right; auto].
+    - left. cbn. auto. }
+  destruct (r_expect r).
+  - injection H as <- <-. split; [exact L1 | split; assumption].
+  - destruct (run_calls1 (with_t s t1) (assoc inter (r_h r))) as [s2 o2] eqn:EA. injection H as <- <-.
+    destruct (run_calls1_L _ _ _ _ L1 EA) as (L2 & X2 & G2).
+    split; [exact L2 | split; [eapply ext_trans; eauto | eapply Q_grow; eauto]].
+Qed.
+
+Lemma flush_loop_ok inter : forall snap s s' o, LInv s -> Q s snap ->
+  flush_loop true inter s snap = (s', o) -> LInv s' /\ ext_ok (s_t s) (s_t s') o /\ Q s' [].
+Proof.
+  induction snap as [|r0 rest IH]; intros s s' o L HQ H; cbn [flush_loop] in H.
+  - injection H as <- <-. split; [exact L | split; [apply ext_refl; apply L | exact HQ]].
+  - unfold pick in H. destruct (live_entry s r0) as [r'|] eqn:LE.
+    + destruct (live_entry_some _ _ _ LE) as [Hr' Eh].
+      destruct (r_sent r') eqn:Es.
+      * apply (IH s s' o L); [|exact H].
+        intros x Hx. destruct (HQ x Hx) as [Y|[Y1 Y2]]; [left; exact Y|]. right. split; [exact Y1|].
+        cbn [map] in Y2. destruct Y2 as [Y2|Y2]; [|exact Y2]. exfalso.
+        assert (x = r') by (eapply TInv_h_inj; eauto using li_t; congruence). subst x. congruence.
+      * destruct (send_one inter s r') as [s1 o1] eqn:E1. destruct (flush_loop true inter s1 rest) as [s2 o2] eqn:E2.
+        injection H as <- <-.
+        destruct (send_one_ok inter s r' rest s1 o1 L Hr' Es) as (L1 & X1 & Q1); [ | exact E1 | ].
+        { intros x Hx. destruct (HQ x Hx) as [Y|[Y1 Y2]]; [left; exact Y|]. right. split; [exact Y1|].
+          cbn [map] in Y2. destruct Y2 as [Y2|Y2]; [left; congruence | right; exact Y2]. }
+        destruct (IH s1 s2 o2 L1 Q1 E2) as (L2 & X2 & Q2). split; [exact L2 | split; [eapply ext_trans; eauto | exact Q2]].
+    + apply (IH s s' o L); [|exact H].
+      intros x Hx. destruct (HQ x Hx) as [Y|[Y1 Y2]]; [left; exact Y|]. right. split; [exact Y1|].
+      cbn [map] in Y2. destruct Y2 as [Y2|Y2]; [|exact Y2]. exfalso.
+      exact (live_entry_none _ _ LE x Hx (eq_sym Y2)).
+Qed.
+
+(* ------------------------------------------------------------------ steps and runs of the extended machine *)
+Lemma step_ok_trans s s1 s2 o1 o2 : step_ok s s1 o1 -> step_ok s1 s2 o2 -> step_ok s s2 (o1 ++ o2).
+Proof.
+  intros (C1 & (x1 & D1) & S1) (C2 & (x2 & D2) & S2). split; [exact C2 | split].
+  - exists (x1 ++ x2). rewrite D2, D1, app_assoc. reflexivity.
+  - rewrite scan_app. rewrite D2. rewrite (scan_dlog_app _ x2 _ _ _ S1). rewrite <- D2. exact S2.
+Qed.
+
+Lemma connok_i_ok inter s s' o : CInv s -> connok_i true inter s = (s', o) -> step_ok s s' o.
+Proof.
+  intros C H. unfold connok_i in H. destruct s as [t p rx c d f a].
+  cbn [s_t s_proto s_rxbuf s_connector s_down s_failures s_addr] in H.
+  destruct c; try (injection H as <- <-; apply step_ok_same; exact C).
+  break C.
+  assert (d = DNone) as -> by (destruct d; auto; destruct Ccl as [_ [X|X]]; discriminate).
+  assert (p = false) as -> by (destruct p; auto; discriminate Cc; reflexivity).
+  unfold with_rxbuf, with_proto, with_connector, with_failures in H.
+  cbn [s_t s_proto s_rxbuf s_connector s_down s_failures s_addr] in H.
+  set (s1 := mkS t true [] CNone DNone 0 a) in *.
+  assert (L1 : LInv s1) by (constructor; cbn; auto).
+  assert (Q1 : Q s1 (t_reqs t)).
+  { intros x Hx. cbn [s1 s_t] in Hx. right. split.
+    - pose proof (Cu eq_refl) as U. rewrite Forall_forall in U. exact (U x Hx).
+    - apply in_map. exact Hx. }
+  destruct (flush_loop_ok inter _ _ _ _ L1 Q1 H) as (L2 & (T2 & D2 & S2) & Q2).
+  destruct L2 as [_ P2 K2 Dn2]. destruct s' as [t2 p2 rx2 c2 d2 f2 a2].
+  cbn [s_t s_proto s_rxbuf s_connector s_down s_failures s_addr s1] in *. subst p2 c2.
+  split; [|split; [exact D2 | exact S2]].
+  apply CInv_mk; [> exact T2 | triv | | triv | | | | | triv].
+  - intros _. rewrite Forall_forall. intros x Hx. destruct (Q2 x Hx) as [Y|[_ []]]. exact Y.
+  - intros Hd. destruct Dn2 as [Y|[Y1 Y2]]; [contradiction|]. auto.
+  - intros _. discriminate.
+  - triv.
+  - intros Hd. destruct Dn2 as [Y|[Y1 Y2]]; congruence.
+Qed.
+
+Theorem istep_ok s e s' o : CInv s -> istep true s e = (s', o) -> step_ok s s' o.
+Proof.
+  intros C H. destruct e as [e0|i|i]; cbn [istep] in H.
+  - eapply step_inv; eauto.
+  - eapply connok_i_ok; eauto.
+  - eapply close_i_step_ok; eauto.
+Qed.
+
+Theorem irun_inv : forall evs s s' o, CInv s -> irun true s evs = (s', o) -> step_ok s s' o.
+Proof.
+  induction evs as [|e evs IH]; intros s s' o C H; cbn [irun] in H.
+  - injection H as <- <-. apply step_ok_same. exact C.
+  - destruct (istep true s e) as [s1 o1] eqn:E1. destruct (irun true s1 evs) as [s2 o2] eqn:E2.
+    injection H as <- <-. pose proof (istep_ok _ _ _ _ C E1) as S1.
+    eapply step_ok_trans; [exact S1|]. apply (IH s1); [apply S1 | exact E2].
+Qed.
+
+Lemma irun_init_scan evs s outs : irun true init evs = (s, outs) ->
+  CInv s /\ scan (t_dlog (s_t s)) [] outs = Some (t_fired (s_t s)).
+Proof. intro H. destruct (irun_inv evs init s outs CInv_init H) as (C & _ & S). split; [exact C | exact S]. Qed.
+
+(* C06_exactly_once for histories with ANY user code inside the two loops *)
+Theorem exactly_once_i evs s outs : irun true init evs = (s, outs) ->
+  NoDup (def_handles outs)
+  /\ (forall o, In o outs -> ~ anomaly o)
+  /\ (forall h, In h (def_handles outs) <-> (h < length (t_dlog (s_t s)))%nat /\ ~ in_table s h).
+Proof.
+  intro H. destruct (irun_init_scan _ _ _ H) as (C & S).
+  pose proof (scan_fired _ _ _ _ S) as F. rewrite app_nil_r in F.
+  pose proof (ci_t s C) as T.
+  assert (Hin : forall h, In h (def_handles outs) <-> In h (t_fired (s_t s))).
+  { intro h. rewrite F. rewrite <- in_rev. tauto. }
+  split; [|split].
+  - pose proof (ti_fired_nodup _ T) as ND. rewrite F in ND. apply NoDup_rev in ND. rewrite rev_involutive in ND. exact ND.
+  - intros o Ho [(k & h & ->) | ->].
+    + destruct (scan_no_anomaly _ _ _ _ S _ Ho) as [A _]. eapply A. reflexivity.
+    + destruct (scan_no_anomaly _ _ _ _ S _ Ho) as [_ A]. apply A. reflexivity.
+  - intro h. rewrite Hin. split.
+    + intro Hf. split; [apply (ti_fired_lt _ T); exact Hf|].
+      intros (r & Hr & Eh & Ec). destruct (TInv_entry _ r T Hr) as (_ & _ & E3 & _). apply (E3 Ec). rewrite Eh. exact Hf.
+    + intros [Hl Hn]. destruct (in_dec Nat.eq_dec h (t_fired (s_t s))) as [Y|N]; [exact Y|]. exfalso. apply Hn.
+      destruct (ti_complete _ T h Hl N) as (r & Hr & Eh). exists r. repeat split; auto.
+      destruct (TInv_entry _ r T Hr) as (_ & _ & _ & E4). destruct (r_cancelled r); auto. exfalso. apply N. rewrite <- Eh. auto.
+Qed.
+
+Theorem after_fired_i evs s outs a h oc b : irun true init evs = (s, outs) -> outs = a ++ ODef h oc :: b ->
+  forall o, In o b -> (forall oc', o <> ODef h oc') /\ (forall rid, o <> OWrite h rid).
+Proof.
+  intros H E. destruct (irun_init_scan _ _ _ H) as (C & S). rewrite E in S. rewrite scan_app in S.
+  destruct (scan (t_dlog (s_t s)) [] a) as [f1|] eqn:S1; [|discriminate].
+  cbn [scan] in S. destruct (memb h f1); [discriminate|]. destruct (outcome_ok _ h oc); [|discriminate].
+  intros o Ho. eapply scan_fired_silent; eauto. left. reflexivity.
+Qed.
+
+Theorem never_resent_i evs s outs a h oc b : irun true init evs = (s, outs) -> outs = a ++ ODef h oc :: b ->
+  forall rid, ~ In (OWrite h rid) b.
+Proof.
+  intros H E rid Hin. destruct (after_fired_i evs s outs a h oc b H E _ Hin) as [_ X]. exact (X rid eq_refl).
+Qed.
+
+Theorem reachable_inv_i evs : CInv (fst (irun true init evs)).
+Proof. destruct (irun true init evs) as [s o] eqn:E. exact (proj1 (irun_init_scan _ _ _ E)). Qed.
+
+(* close() leaves nothing pending whatever user code does in its loop *)
+Theorem close_i_all_fired inter s s' o : CInv s -> s_down s = DNone -> close_i inter s = (s', o) ->
+  t_reqs (s_t s') = [] /\ s_down s' <> DNone
+  /\ forall h, (h < length (t_dlog (s_t s')))%nat -> In h (t_fired (s_t s')).
+Proof.
+  intros C D H.
+  destruct (close_i_ok inter s s' o (ci_t s C) D (ci_conn s C) (ci_open s C D) H) as (K & (T' & _ & _) & E & _).
+  split; [exact E | split; [apply K|]]. intros h Hl.
+  destruct (in_dec Nat.eq_dec h (t_fired (s_t s'))) as [Y|N]; [exact Y|].
+  destruct (ti_complete _ T' h Hl N) as (r & Hr & _). rewrite E in Hr. contradiction.
+Qed.
+
+(* the loop of _sendQueued as it was before commit 7c12cf4 (guard = false) *)
+Theorem unguarded_flush_refuted : exists evs s outs a h oc b rid,
+  irun false init evs = (s, outs) /\ outs = a ++ ODef h oc :: b /\ In (OWrite h rid) b.
+Proof.
+  exists [IEv (EMake 1 false); IEv (EMake 2 true); IConnOk [(0%nat, [C0 CClose0])]].
+  do 2 eexists. exists [OConnect 0; OWrite 0 1; ODef 0 SuccNone; OLose], 1%nat, FailClosed, [OWrite 1 2], 2.
+  split; [vm_compute; reflexivity|]. split; [reflexivity | left; reflexivity].
+Qed.
+
+(* ------------------------------------------------------------------ conservative extension: no user code in the loops *)
+Lemma find_app_mid {A} (p : A -> bool) pre x rest :
+  (forall y, In y pre -> p y = false) -> p x = true -> find p (pre ++ x :: rest) = Some x.
+Proof.
+  induction pre as [|a pre IH]; intros Hp Hx; cbn [app find].
+  - rewrite Hx. reflexivity.
+  - rewrite (Hp a (or_introl eq_refl)). apply IH; auto. intros y Hy. apply Hp. right. exact Hy.
+Qed.
+
+Lemma send_request_reqs t pre r rest : t_reqs t = pre ++ r :: rest -> NoDup (map r_id (pre ++ r :: rest)) ->
+  t_reqs (fst (send_request t r)) = pre ++ (if r_expect r then [set_sent true r] else []) ++ rest.
+Proof.
+  intros E ND. unfold send_request. rewrite E. rewrite (upd_unique pre r rest _ ND).
+  destruct (r_expect r).
+  - reflexivity.
+  - destruct (fire _ _ _) as [t2 o2] eqn:EF. cbn [fst].
+    pose proof (fire_reqs (t_with_reqs (t_with_reqs t (pre ++ set_sent true r :: rest))
+                 (del (r_id r) (t_reqs (t_with_reqs t (pre ++ set_sent true r :: rest))))) (r_h r) SuccNone) as X.
+    rewrite EF in X. cbn [fst t_with_reqs t_reqs] in X. rewrite X.
+    apply (del_unique pre r (set_sent true r) rest ND). reflexivity.
+Qed.
+
+Lemma flush_loop_nil : forall snap pre s,
+  t_reqs (s_t s) = pre ++ snap -> NoDup (map r_id (pre ++ snap)) -> NoDup (map r_h (pre ++ snap)) ->
+  Forall (fun r => r_sent r = false) snap ->
+  flush_loop true [] s snap = (with_t s (fst (send_each (s_t s) snap)), snd (send_each (s_t s) snap)).
+Proof.
+  induction snap as [|r rest IH]; intros pre s E NDi NDh U; cbn [flush_loop send_each].
+  - cbn [fst snd]. destruct s; reflexivity.
+  - inversion U as [|? ? Ur Urest]; subst. rewrite Ur.
+    assert (LE : live_entry s r = Some r).
+    { unfold live_entry. rewrite E. apply find_app_mid; [|apply Nat.eqb_refl].
+      intros y Hy. apply Nat.eqb_neq. intro Eh. rewrite map_app in NDh. cbn [map] in NDh.
+      apply NoDup_remove_2 in NDh. apply NDh. apply in_app_iff. left. rewrite <- Eh. apply in_map. exact Hy. }
+    unfold pick. rewrite LE, Ur. unfold send_one. cbn [assoc run_calls1].
+    pose proof (send_request_reqs (s_t s) pre r rest E NDi) as R.
+    destruct (send_request (s_t s) r) as [t1 o1] eqn:ES. cbn [fst] in R.
+    assert (S1 : (if r_expect r then (with_t s t1, o1) else (with_t s t1, o1 ++ [])) = (with_t s t1, o1))
+      by (destruct (r_expect r); rewrite ?app_nil_r; reflexivity).
+    rewrite S1.
+    rewrite (IH (pre ++ (if r_expect r then [set_sent true r] else [])) (with_t s t1)).
+    + rewrite with_t_t. destruct s as [t0 p0 rx0 c0 d0 f0 a0]. cbn [with_t]. destruct (send_each t1 rest) as [t2 o2]. reflexivity.
+    + rewrite with_t_t. rewrite R, app_assoc. reflexivity.
+    + rewrite <- app_assoc. rewrite !map_app in *. cbn [map] in NDi.
+      destruct (r_expect r); cbn [map app]; [exact NDi|]. apply NoDup_remove_1 in NDi. exact NDi.
+    + rewrite <- app_assoc. rewrite !map_app in *. cbn [map] in NDh.
+      destruct (r_expect r); cbn [map app]; [exact NDh|]. apply NoDup_remove_1 in NDh. exact NDh.
+    + exact Urest.
+Qed.
+
+Lemma connok_i_nil s : CInv s -> connok_i true [] s = step s EConnOk.
+Proof.
+  intro C. unfold connok_i. cbn [step]. destruct (s_connector s) eqn:K; try reflexivity.
+  assert (P : s_proto s = false).
+  { destruct (s_proto s) eqn:P; auto. pose proof (ci_conn s C P). congruence. }
+  set (s1 := with_rxbuf (with_proto (with_connector (with_failures s 0) CNone) true) []).
+  destruct (s_down s1) eqn:D; try reflexivity.
+  assert (E1 : s_t s1 = s_t s) by (destruct s; reflexivity).
+  unfold lift, send_queued.
+  rewrite (flush_loop_nil (t_reqs (s_t s1)) [] s1); try reflexivity.
+  - rewrite E1. apply (ti_ids _ (ci_t s C)).
+  - rewrite E1. apply TInv_handles_nodup. apply (ci_t s C).
+  - rewrite E1. exact (ci_unsent s C P).
+Qed.
+
+Lemma NoDup_app_last' {A} (l : list A) x : NoDup l -> ~ In x l -> NoDup (l ++ [x]).
+Proof.
+  induction l as [|a l IH]; intros ND Hx; cbn.
+  - constructor; [intros []|constructor].
+  - inversion ND as [|? ? Ha ND']; subst. constructor.
+    + intro Hin. apply in_app_iff in Hin. destruct Hin as [Hin|[E|[]]]; [contradiction|]. apply Hx. left. auto.
+    + apply IH; auto. intro. apply Hx. right. assumption.
+Qed.
+
+(* the loop of close() with nothing happening inside = failing the reversed snapshot on the cleared table *)
+Lemma close_loop_nil : forall snap s, t_reqs (s_t s) = rev snap -> NoDup (map r_h snap) -> NoDup (map r_id snap) ->
+  close_loop [] s snap
+  = (with_t s (fst (fail_all (mkT [] (t_dlog (s_t s)) (t_fired (s_t s))) snap)),
+     snd (fail_all (mkT [] (t_dlog (s_t s)) (t_fired (s_t s))) snap)).
+Proof.
+  induction snap as [|r rest IH]; intros s E NDh NDi; cbn [close_loop fail_all].
+  - cbn [fst snd]. cbn [rev] in E. destruct s as [t0 p0 rx0 c0 d0 f0 a0]. cbn in *. destruct t0; cbn in *. subst. reflexivity.
+  - cbn [rev] in E. cbn [map] in NDh, NDi. inversion NDh as [|? ? Nh NDh']; inversion NDi as [|? ? Ni NDi']; subst.
+    assert (LE : live_entry s r = Some r).
+    { unfold live_entry. rewrite E. apply find_app_mid; [|apply Nat.eqb_refl].
+      intros y Hy. apply Nat.eqb_neq. intro Eh. apply Nh. rewrite <- Eh. apply in_map. apply in_rev. exact Hy. }
+    rewrite LE.
+    assert (Dl : del (r_id r) (t_reqs (s_t s)) = rev rest).
+    { rewrite E. pose proof (del_unique (rev rest) r r [] ) as X. rewrite app_nil_r in X. apply X; [|reflexivity].
+      rewrite map_app. cbn [map]. apply NoDup_app_last'.
+      - rewrite map_rev. apply NoDup_rev. exact NDi'.
+      - rewrite map_rev. rewrite <- in_rev. exact Ni. }
+    rewrite Dl.
+    destruct (r_cancelled r).
+    + rewrite (IH (with_t s (t_with_reqs (s_t s) (rev rest)))); [|rewrite with_t_t; reflexivity | exact NDh' | exact NDi'].
+      rewrite with_t_t. cbn [t_with_reqs t_dlog t_fired]. destruct s as [t0 p0 rx0 c0 d0 f0 a0]. reflexivity.
+    + unfold fire, is_fired. cbn [t_with_reqs t_fired t_reqs t_dlog].
+      destruct (existsb (Nat.eqb (r_h r)) (t_fired (s_t s))) eqn:Ef; cbn [assoc run_calls0 app].
+      * rewrite (IH (with_t s (t_with_reqs (s_t s) (rev rest)))); [|rewrite with_t_t; reflexivity | exact NDh' | exact NDi'].
+        rewrite with_t_t. cbn [t_with_reqs t_dlog t_fired]. destruct s as [t0 p0 rx0 c0 d0 f0 a0]. cbn [with_t s_t].
+        destruct (fail_all _ rest). reflexivity.
+      * rewrite (IH (with_t s (mkT (rev rest) (t_dlog (s_t s)) (r_h r :: t_fired (s_t s))))); [|rewrite with_t_t; reflexivity | exact NDh' | exact NDi'].
+        rewrite with_t_t. cbn [t_dlog t_fired]. destruct s as [t0 p0 rx0 c0 d0 f0 a0]. cbn [with_t s_t].
+        destruct (fail_all _ rest). reflexivity.
+Qed.
+
+Lemma close_i_nil s : CInv s -> close_i [] s = step s EClose.
+Proof.
+  intro C. unfold close_i. cbn [step]. destruct (s_down s) eqn:D; try reflexivity.
+  set (s0 := with_down s DPending).
+  assert (G : forall s1 o1, s_t s1 = s_t s ->
+            (let (s2, o2) := close_loop [] s1 (rev (t_reqs (s_t s1))) in (s2, o1 ++ o2))
+            = (let (t2, o2) := fail_all (t_with_reqs (s_t s1) []) (rev (t_reqs (s_t s1))) in (with_t s1 t2, o1 ++ o2))).
+  { intros s1 o1 E1. rewrite (close_loop_nil (rev (t_reqs (s_t s1))) s1).
+    - cbn [t_with_reqs]. destruct (fail_all _ _); reflexivity.
+    - rewrite rev_involutive. reflexivity.
+    - rewrite E1, map_rev. apply NoDup_rev. apply TInv_handles_nodup. apply (ci_t s C).
+    - rewrite E1, map_rev. apply NoDup_rev. apply (ti_ids _ (ci_t s C)). }
+  assert (E0 : s_t s0 = s_t s) by (destruct s; reflexivity).
+  destruct (s_proto s0) eqn:P.
+  - exact (G s0 [OLose] E0).
+  - destruct (s_connector s0) eqn:K.
+    + destruct (fire_down s0) as [s' o'] eqn:F. apply G.
+      pose proof (fire_down_t s0) as X. rewrite F in X. cbn [fst] in X. congruence.
+    + destruct (fire_down (with_connector s0 CStale)) as [s' o'] eqn:F. apply G.
+      pose proof (fire_down_t (with_connector s0 CStale)) as X. rewrite F in X. cbn [fst] in X. rewrite X. destruct s; reflexivity.
+    + destruct (fire_down (with_connector s0 CStale)) as [s' o'] eqn:F. apply G.
+      pose proof (fire_down_t (with_connector s0 CStale)) as X. rewrite F in X. cbn [fst] in X. rewrite X. destruct s; reflexivity.
+    + exact (G s0 [] E0).
+Qed.
+
+Definition plain (e : event) : ievent :=
+  match e with EConnOk => IConnOk [] | EClose => IClose [] | _ => IEv e end.
+
+Theorem irun_conservative : forall evs s, CInv s -> irun true s (map plain evs) = run s evs.
+Proof.
+  induction evs as [|e evs IH]; intros s C; cbn [map irun run]; [reflexivity|].
+  assert (E : istep true s (plain e) = step s e).
+  { destruct e; try reflexivity; cbn [plain istep]; [apply connok_i_nil | apply close_i_nil]; exact C. }
+  rewrite E. destruct (step s e) as [s1 o1] eqn:E1.
+  pose proof (step_inv _ _ _ _ C E1) as (C1 & _). rewrite (IH s1 C1). reflexivity.
+Qed.
+
+(* and the plain events themselves keep their meaning *)
+Theorem irun_conservative_ev : forall evs s, irun true s (map IEv evs) = run s evs.
+Proof.
+  induction evs as [|e evs IH]; intros s; cbn [map irun run istep]; [reflexivity|].
+  destruct (step s e) as [s1 o1]. rewrite IH. reflexivity.
+Qed.
